@@ -166,6 +166,7 @@ type State struct {
 	nonnil map[interface{}]bool
 	truth  map[interface{}]bool // boolean SSA values with known truth value
 	nnPath map[string]interface{} // memory locations (access-path key -> path) currently holding a non-nil value
+	cfacts []cfact                // guarded facts kept across joins (see condfacts.go)
 }
 
 func NewState() *State {
@@ -189,6 +190,7 @@ func (s *State) Clone() *State {
 	for k, v := range s.nnPath {
 		n.nnPath[k] = v
 	}
+	n.cfacts = append([]cfact(nil), s.cfacts...)
 	return n
 }
 
@@ -284,6 +286,14 @@ func (s *State) equal(o *State) bool {
 	}
 	for k := range s.nnPath {
 		if _, ok := o.nnPath[k]; !ok {
+			return false
+		}
+	}
+	if len(s.cfacts) != len(o.cfacts) {
+		return false
+	}
+	for i := range s.cfacts {
+		if s.cfacts[i].id() != o.cfacts[i].id() {
 			return false
 		}
 	}
